@@ -5,6 +5,7 @@ import (
 	"fmt"
 	"html"
 	"strings"
+	"unicode/utf8"
 
 	"github.com/textwire/textwire/v2/ctx"
 	"github.com/textwire/textwire/v2/fail"
@@ -93,7 +94,8 @@ func strCapitalizeFunc(_ *ctx.EvalCtx, receiver object.Object, _ ...object.Objec
 		return &object.Str{Value: ""}, nil
 	}
 
-	newVal := strings.ToUpper(val[:1]) + val[1:]
+	_, size := utf8.DecodeRuneInString(val)
+	newVal := strings.ToUpper(val[:size]) + val[size:]
 
 	return &object.Str{Value: newVal}, nil
 }
